@@ -4,6 +4,37 @@
 
 use std::alloc::{GlobalAlloc, Layout, System};
 use std::cell::Cell;
+use std::sync::atomic::{AtomicUsize, Ordering};
+
+/// A single request above this size is an allocation bomb: the real allocator
+/// would fail and abort the whole process. Instead the requesting thread is
+/// parked for good and the supervisor reports the run as a violation.
+pub const TRAP_LIMIT: usize = 1 << 30;
+pub static TRAP_SIZE: AtomicUsize = AtomicUsize::new(0);
+pub static TRAP_WORKER: AtomicUsize = AtomicUsize::new(usize::MAX);
+pub static TRAP_ACK: AtomicUsize = AtomicUsize::new(0);
+
+fn trap(size: usize) -> ! {
+    let w = WORKER.try_with(|w| w.get()).unwrap_or(usize::MAX);
+    TRAP_WORKER.store(w, Ordering::SeqCst);
+    TRAP_SIZE.store(size, Ordering::SeqCst);
+    // the supervisor (check) or the main thread (replay) reports the run and
+    // exits the process well within this time; if nobody is watching, give up
+    for _ in 0..300 {
+        std::thread::sleep(std::time::Duration::from_millis(100));
+        if TRAP_ACK.load(Ordering::SeqCst) != 0 {
+            // somebody is dealing with it: stay parked
+            loop {
+                std::thread::sleep(std::time::Duration::from_secs(3600));
+            }
+        }
+    }
+    std::process::abort();
+}
+
+pub fn set_worker(i: usize) {
+    WORKER.with(|w| w.set(i));
+}
 
 pub struct Meter;
 
@@ -11,6 +42,7 @@ thread_local! {
     static LIVE: Cell<isize> = const { Cell::new(0) };
     static PEAK: Cell<isize> = const { Cell::new(0) };
     static BIGGEST: Cell<usize> = const { Cell::new(0) };
+    static WORKER: Cell<usize> = const { Cell::new(usize::MAX) };
 }
 
 #[inline]
@@ -38,6 +70,9 @@ fn sub(n: usize) {
 
 unsafe impl GlobalAlloc for Meter {
     unsafe fn alloc(&self, layout: Layout) -> *mut u8 {
+        if layout.size() > TRAP_LIMIT {
+            trap(layout.size());
+        }
         let p = System.alloc(layout);
         if !p.is_null() {
             add(layout.size());
@@ -49,6 +84,9 @@ unsafe impl GlobalAlloc for Meter {
         sub(layout.size());
     }
     unsafe fn alloc_zeroed(&self, layout: Layout) -> *mut u8 {
+        if layout.size() > TRAP_LIMIT {
+            trap(layout.size());
+        }
         let p = System.alloc_zeroed(layout);
         if !p.is_null() {
             add(layout.size());
@@ -56,6 +94,9 @@ unsafe impl GlobalAlloc for Meter {
         p
     }
     unsafe fn realloc(&self, ptr: *mut u8, layout: Layout, new_size: usize) -> *mut u8 {
+        if new_size > TRAP_LIMIT {
+            trap(new_size);
+        }
         let p = System.realloc(ptr, layout, new_size);
         if !p.is_null() {
             if new_size >= layout.size() {
